@@ -135,10 +135,13 @@ func (p *parser) parseIPv4Number(u *Url, input string) (number int64, validation
 		validationError = true
 		return
 	}
-	// strconv.ParseInt accepts a leading sign, an IPv4 number has none
-	if input[0] == '+' || input[0] == '-' {
-		err = &strconv.NumError{Func: "ParseInt", Num: input, Err: strconv.ErrSyntax}
-		return
+	// Only digits of the radix are allowed. strconv.ParseInt also accepts a leading sign, and it
+	// reports a range error when the value overflows before a later non-digit is reached.
+	for _, c := range []byte(input) {
+		if !(R == 16 && ASCIIHexDigit.Test(uint(c)) || R == 10 && ASCIIDigit.Test(uint(c)) || R == 8 && c >= '0' && c <= '7') {
+			err = &strconv.NumError{Func: "ParseInt", Num: input, Err: strconv.ErrSyntax}
+			return
+		}
 	}
 	number, err = strconv.ParseInt(input, R, 64)
 	return
